@@ -216,6 +216,14 @@ def programs(tier):
             for z in ('Z', 'z'):
                 for a in LETTERS:
                     progs.append([f, mid, (z, 1), (a, 1)])
+    # a second sub-path that is closed straight after its moveto (and what follows): `M .. L .. M x y Z`
+    for f in firsts:
+        for mid in (('L', 1), ('C', 1), ('Q', 1), ('h', 1)):
+            for mv in (('M', 1), ('m', 1), ('M', 2)):
+                for z in ('Z', 'z'):
+                    progs.append([f, mid, mv, (z, 1)])
+                    for a in ('L', 'l', 't', 's', 'h'):
+                        progs.append([f, mid, mv, (z, 1), (a, 1)])
     if tier == 'thorough':
         for f in firsts:
             for a in LETTERS:
